@@ -1,7 +1,183 @@
-(* C17 -- property theorems (work in progress) *)
-From PV Require Import Lib.Base Model.C17_Spelling Model.C17_Voices Model.C17_Key.
+(* C17 -- property theorems.  Statements + `exact` only; proofs live in Proofs/C17_*.v.
+   All statements are about the models the correspondence run evaluates against partitura on
+   every check: Model.C17_Spelling (spell_tab = ps13 stage 1 in front of p2pn), Model.C17_Voices
+   (the outer layer of estimate_voices; the VoSA search is the Section variable [oracle], the
+   theorems hold for EVERY function of that type) and Model.C17_Key (exact correlation
+   comparison over the key profile matrices reflected into Gen/C17_KeyTab.v).
+   Vocabulary: a spelling is (index into STEPS, alter, octave); midi_of = 12 (octave + 1) +
+   pitch class of the step + alter; spell_tab kpre kpost rows = table (row, spelling) in the
+   canonical (onset, pitch, duration) order, row = (onset, pitch, duration);
+   mftc c0 c ct = morph of chroma c if the tonic had chroma ct and the first note chroma c0. *)
+From PV Require Import Lib.Base Gen.C17_PS13 Gen.C17_KeyTab
+  Model.C17_Spelling Model.C17_Voices Model.C17_Key
+  Proofs.C17_lib Proofs.C17_Spelling Proofs.C17_Voices Proofs.C17_VoicesTotal Proofs.C17_Key.
+From Coq Require Import Sorting.Permutation.
 #[local] Open Scope Z_scope.
 
-Theorem c17_placeholder : spell_default [] = [].
-Proof. reflexivity. Qed.
-Print Assumptions c17_placeholder.
+(* ================================================================== *)
+(* O1  spelling *)
+
+(* p2pn sounds the chromatic pitch (+21 = MIDI), for EVERY chromatic and morphetic pitch:
+   pitch preservation does not depend on the ps13 heuristic at all *)
+Theorem p2pn_sounds : forall cp mp, midi_of (p2pn cp mp) = Some (cp + 21).
+Proof. exact p2pn_sounds_lemma. Qed.
+Print Assumptions p2pn_sounds.
+
+(* every note of every array is spelled (the table lists exactly the input rows) ... *)
+Theorem ps13_total : forall kpre kpost rows r, In r rows -> exists sp, In (r, sp) (spell_tab kpre kpost rows).
+Proof. exact ps13_total_lemma. Qed.
+Print Assumptions ps13_total.
+
+(* ... and each spelling sounds exactly the row's MIDI pitch, for all context sizes *)
+Theorem ps13_sounds : forall kpre kpost rows r sp,
+  In (r, sp) (spell_tab kpre kpost rows) -> midi_of sp = Some (r_pitch r).
+Proof. exact ps13_sounds_lemma. Qed.
+Print Assumptions ps13_sounds.
+
+(* shifting the chromatic pitch by an octave shifts the chosen morphetic pitch by 7 *)
+Theorem morphetic_pitch_periodic : forall cp m, morphetic_pitch (cp + 12) m = morphetic_pitch cp m + 7.
+Proof. exact morphetic_pitch_periodic_lemma. Qed.
+Print Assumptions morphetic_pitch_periodic.
+
+(* the complete finite sweep (12 x 12 x 12, decided in the kernel over the reflected tables):
+   whatever the first chroma, the note's chroma and the tonic chroma, at most a double accidental *)
+Theorem ps13_alter_sweep : forall c0 c ct, 0 <= c0 < 12 -> 0 <= c < 12 -> 0 <= ct < 12 ->
+  -2 <= sp_alter (spell_cm c (mftc c0 c ct)) <= 2.
+Proof. exact sweep_spec. Qed.
+Print Assumptions ps13_alter_sweep.
+
+(* the morph selected by the arg-max of the context strengths is the morph under SOME tonic
+   chroma, because the note's own chroma is in its context (K_post >= 1) *)
+Theorem selected_morph_has_support : forall c0 c w, 0 <= c < 12 -> In c w ->
+  exists ct, 0 <= ct < 12 /\ mftc c0 c ct = select_morph c0 c w.
+Proof. exact select_morph_support. Qed.
+Print Assumptions selected_morph_has_support.
+
+(* hence, for ALL arrays and ALL pitches (sweep lifted by periodicity): |alter| <= 2 *)
+Theorem ps13_alter_bounded : forall kpre kpost rows r sp, (1 <= kpost)%nat ->
+  In (r, sp) (spell_tab kpre kpost rows) -> -2 <= sp_alter sp <= 2.
+Proof. exact ps13_alter_bounded_lemma. Qed.
+Print Assumptions ps13_alter_bounded.
+
+(* the order of the input rows does not matter: the whole table is the same *)
+Theorem ps13_perm_invariant : forall kpre kpost rows rows',
+  Permutation rows rows' -> spell_tab kpre kpost rows = spell_tab kpre kpost rows'.
+Proof. exact ps13_perm_invariant_lemma. Qed.
+Print Assumptions ps13_perm_invariant.
+
+(* ... so a note (rows pairwise different as (onset, pitch, duration)) has ONE spelling, the same
+   in every order of the rows *)
+Theorem ps13_order_independent : forall kpre kpost rows rows',
+  Permutation rows rows' -> NoDup rows ->
+  forall r s s', In (r, s) (spell_tab kpre kpost rows) -> In (r, s') (spell_tab kpre kpost rows') -> s = s'.
+Proof. exact ps13_order_independent_lemma. Qed.
+Print Assumptions ps13_order_independent.
+
+(* ================================================================== *)
+(* O2  voices (for every oracle, i.e. every behaviour of the VoSA search) *)
+
+(* the oracle answers exactly the representatives it was given  ==>  every note gets a voice
+   (zero-duration notes are ordinary notes of this layer) *)
+Theorem voices_total : forall oracle mono notes,
+  let ins := indexed_from 0 notes in
+  let inp := vosa_input ins (equivs_of mono ins) in
+  oracle_total_on inp (oracle inp) = true ->
+  exists out, estimate_voices oracle mono notes = Some out /\ List.length out = List.length notes.
+Proof. exact voices_total_lemma. Qed.
+Print Assumptions voices_total.
+
+(* one voice per note; the numbers used are exactly 1..K (no gaps), K >= 1 unless there is no note *)
+Theorem voices_wellformed : forall oracle mono notes out,
+  estimate_voices oracle mono notes = Some out ->
+  List.length out = List.length notes /\
+  exists K, 0 <= K /\ (notes <> [] -> 1 <= K) /\ forall t, In t out <-> 1 <= t <= K.
+Proof. exact voices_wellformed_lemma. Qed.
+Print Assumptions voices_wellformed.
+
+Theorem voices_positive : forall oracle mono notes out v,
+  estimate_voices oracle mono notes = Some out -> In v out -> 1 <= v.
+Proof. exact voices_positive_lemma. Qed.
+Print Assumptions voices_positive.
+
+(* chord mode: notes with identical onset and duration get the same voice *)
+Theorem chord_mode_same_voice : forall oracle notes out i j ni nj,
+  estimate_voices oracle false notes = Some out ->
+  nth_error notes i = Some ni -> nth_error notes j = Some nj ->
+  vn_onset ni = vn_onset nj -> vn_dur ni = vn_dur nj ->
+  nth_error out i = nth_error out j.
+Proof. exact chord_mode_same_voice_lemma. Qed.
+Print Assumptions chord_mode_same_voice.
+
+Theorem mono_mode_identity_map : forall ins, equivs_of true ins = map (fun x => (fst x, [fst x])) ins.
+Proof. exact mono_mode_identity_map_lemma. Qed.
+Print Assumptions mono_mode_identity_map.
+
+(* ================================================================== *)
+(* O3  key *)
+
+(* the result is one of the 24 names ... *)
+Theorem key_name_valid : forall M ns, In (estimate_key M ns) key_names.
+Proof. exact key_name_valid_lemma. Qed.
+Print Assumptions key_name_valid.
+
+(* ... which are format_key of the implementation's KEYS (run on the working tree), each accepted by
+   key_name_to_fifths_mode with the fifths and mode of its KEYS entry (tabulated), laid out as
+   index i < 12: major, tonic pitch class i; index 12 + i: minor, tonic pitch class i *)
+Theorem key_names_are_the_implementations : key_names = key_names_impl.
+Proof. exact key_names_impl_lemma. Qed.
+Print Assumptions key_names_are_the_implementations.
+
+Theorem key_names_parse :
+  key_parse_tab = map (fun kn => (snd kn, Some (snd (fst kn), snd (fst (fst kn))))) (combine keys_table key_names).
+Proof. exact key_names_parse_lemma. Qed.
+Print Assumptions key_names_parse.
+
+Theorem keys_layout : keys_layout_ok = true /\ List.length keys_table = 24%nat.
+Proof. exact keys_layout_lemma. Qed.
+Print Assumptions keys_layout.
+
+(* moving any notes by any numbers of octaves (independently per note) changes nothing *)
+Theorem key_octave_invariant : forall M ns ns',
+  Forall2 (fun n n' => fst n mod 12 = fst n' mod 12 /\ snd n = snd n') ns ns' ->
+  estimate_key M ns = estimate_key M ns'.
+Proof. exact key_octave_invariant_lemma. Qed.
+Print Assumptions key_octave_invariant.
+
+Theorem key_octave_shift : forall M ns k,
+  estimate_key M (map (fun n => (fst n + 12 * k, snd n)) ns) = estimate_key M ns.
+Proof. exact key_octave_shift_lemma. Qed.
+Print Assumptions key_octave_shift.
+
+(* rescaling all durations by the positive rational a/b changes nothing *)
+Theorem key_scale_invariant : forall M ns ns' a b, 0 < a -> 0 < b ->
+  Forall2 (fun n n' => fst n = fst n' /\ a * snd n = b * snd n') ns ns' ->
+  estimate_key M ns = estimate_key M ns'.
+Proof. exact key_scale_invariant_lemma. Qed.
+Print Assumptions key_scale_invariant.
+
+Theorem key_scale_by : forall M ns k, 0 < k ->
+  estimate_key M (map (fun n => (fst n, k * snd n)) ns) = estimate_key M ns.
+Proof. exact key_scale_by_lemma. Qed.
+Print Assumptions key_scale_by.
+
+(* the three reflected profile matrices are circulant: row i (12 + i) is row 0 (12) rotated by i *)
+Theorem circulant_row_i_is_rotation : forall s, circulantb (profile_set s) = true.
+Proof. exact circulant_rows_lemma. Qed.
+Print Assumptions circulant_row_i_is_rotation.
+
+(* transposing by j semitones moves the estimated tonic by j, same mode -- when the maximum
+   correlation is attained by one key only (with ties the first index wins, which is not equivariant) *)
+Theorem key_transpose_equivariant : forall M ns j i, circulantb M = true ->
+  unique_max (key_lt M (ky_hist ns)) i ->
+  estimate_key_idx M ns = i /\ estimate_key_idx M (transpose j ns) = rot_key j i.
+Proof. exact key_transpose_equivariant_lemma. Qed.
+Print Assumptions key_transpose_equivariant.
+
+(* the same on the returned names, for each of the three reflected profile sets: the name at index i
+   becomes the name at index rot_key j i (keys_layout: tonic pitch class + j, same mode) *)
+Theorem key_transpose_names : forall s ns j i,
+  unique_max (key_lt (profile_set s) (ky_hist ns)) i ->
+  estimate_key (profile_set s) ns = nth (Z.to_nat i) key_names "?"%string /\
+  estimate_key (profile_set s) (transpose j ns) = nth (Z.to_nat (rot_key j i)) key_names "?"%string.
+Proof. exact key_transpose_names_lemma. Qed.
+Print Assumptions key_transpose_names.
